@@ -131,6 +131,11 @@ def judge_stress(mode, out):
     elif mode == "dectest":
         if len(nums) != 2 or nums[0] != 1 or nums[1] != 0:
             return "dec_and_test returned TRUE %s times: %s" % (nums[0] if nums else "?", out)
+    elif mode == "incdec":
+        if len(nums) != 4 or nums[0] != 0 or nums[1] != 0:
+            return "inc / dec_and_test pairs around the values 0 and 1 lost an update (word negative or not back at 0): " + out
+        if nums[3] > 0 and (nums[2] < 1 or nums[2] > nums[3]):
+            return "dec_and_test returned TRUE %d times for %d inc/dec pairs that started and ended at 0: %s" % (nums[2], nums[3], out)
     elif mode == "casinc":
         if len(nums) != 2 or nums[0] != nums[1]:
             return "lost increment through compare-and-exchange: " + out
